@@ -592,13 +592,17 @@ def gen_res():
               '<radialGradient id="rg" xlink:href="#lg"/><linearGradient id="c1" x1="0" y1="0" x2="0" y2="1"><stop offset="0" stop-color="red"/><stop offset="1" stop-color="blue"/></linearGradient><linearGradient id="c2" xlink:href="#c1" gradientUnits="userSpaceOnUse"/><linearGradient id="c3" xlink:href="#c2" spreadMethod="reflect"/><linearGradient id="c4" xlink:href="#c3" x2="1"/><pattern id="p1" width="6" height="6" patternUnits="userSpaceOnUse"><rect width="3" height="3"/></pattern><pattern id="p2" xlink:href="#p1" x="1"/><pattern id="p3" xlink:href="#p2" y="1"/><pattern id="pt" width="10" height="10" patternUnits="userSpaceOnUse"><rect width="5" height="5" fill="url(#lg)"/></pattern>'
               '<marker id="mk" markerWidth="4" markerHeight="4" refX="2" refY="2"><circle cx="2" cy="2" r="2"/></marker>'
               '<clipPath id="cp"><rect width="50" height="50"/></clipPath><mask id="ms"><rect width="100" height="40" fill="white"/></mask>'
-              '<g id="u1"><use xlink:href="#u2"/></g><g id="u2"><use xlink:href="#u1"/></g><g id="u3"><use xlink:href="#u3"/></g></defs>'
+              '<g id="ok1"><rect width="4" height="4" fill="url(#c2)"/><use xlink:href="#ok2" x="5"/></g><g id="ok2"><circle r="2" cx="2" cy="2"/></g></defs>'
               '<rect width="60" height="30" fill="url(#lg)" clip-path="url(#cp)"/><rect x="100" y="0" width="10" height="10" fill="url(#c4)"/><rect x="100" y="12" width="10" height="10" fill="url(#c3)"/><rect x="100" y="24" width="10" height="10" fill="url(#p3)"/><circle cx="80" cy="20" r="15" fill="url(#rg)" mask="url(#ms)"/>'
               '<rect x="60" y="30" width="40" height="20" fill="url(#pt)" stroke="url(#missing)"/>'
               '<path d="M10 50 L40 50 L40 55" stroke="black" fill="none" marker-end="url(#mk)" stroke-dasharray="3 2"/>'
-              '<use xlink:href="#u1"/><use xlink:href="#u3"/><use xlink:href="#nothing"/>'
+              '<use xlink:href="#ok1" x="70" y="40"/><use xlink:href="#ok1" x="85" y="40"/><use xlink:href="#nothing"/>'
               '<text x="5" y="58" font-family="ahem" font-size="6" transform="rotate(-5) skewX(10)">sv02</text></svg>')
     scenario("res-09", "res", doc(css0, "<p>%s</p>" % inline + text), expect=dict(exp0))
+    # 15: inline SVG with internal <use> cycles (the whole image may be dropped, the document must survive)
+    cyc = ('<svg xmlns="http://www.w3.org/2000/svg" xmlns:xlink="http://www.w3.org/1999/xlink" width="40" height="30"><defs><g id="u1"><use xlink:href="#u2"/></g><g id="u2"><use xlink:href="#u1"/></g><g id="u3"><use xlink:href="#u3"/></g></defs>'
+           '<rect width="10" height="10"/><use xlink:href="#u1"/><use xlink:href="#u3"/></svg>')
+    scenario("res-15", "res", doc(css0, "<p>%s</p>" % cyc + text), expect=dict(exp0, cyclic=True))
 
     # 10: @font-face via url + local, data: URIs, charset-labelled CSS
     files = {
@@ -1021,7 +1025,7 @@ def gen_collide():
                  expect=dict(group="collide", sentinels=W[:12] + W[17:], line_height=12), base="http://sim.test/collide/")
 
     # forward target-text / target-counter references wrapped in quotes opened in ::before and closed in ::after
-    css = page_css(240, 150, 10) + BASE + ('q { quotes: "<" ">" "[" "]" }\na::before { content: open-quote target-text(attr(href), content()) " " }\na::after { content: " " target-counter(attr(href), page) close-quote }\n'
+    css = page_css(240, 150, 10) + BASE + ('q { quotes: "<" ">" "[" "]" }\na::before { content: open-quote target-text(attr(href)) }\na::after { content: close-quote }\na.n::before { content: open-quote target-counter(attr(href), page) " " }\n'
                                             'span.o::before { content: open-quote } span.o::after { content: close-quote }\nbody { quotes: "<" ">" "[" "]" }\n')
     body, flow = [], []
     wi = 1
@@ -1030,7 +1034,7 @@ def gen_collide():
         inner = list(ws)
         inner[2] = '<a href="#t%d">%s</a>' % ((i + 2) % 6, ws[2])
         inner[6] = '<span class=o>%s <a href="#t%d">%s</a></span>' % (ws[6], (i + 3) % 6, ws[7]); inner[7] = ""
-        inner[10] = '<a href="#t%d">%s</a>' % ((i + 4) % 6, ws[10])
+        inner[10] = '<a class=n href="#t%d">%s</a>' % ((i + 4) % 6, ws[10])
         body.append('<p id="t%d">%s</p>' % (i, " ".join(x for x in inner if x)))
     scenario("feat-09", "feat", doc(css, "\n".join(body)), expect=dict(margin=True, page_w=240, page_h=150, line_height=12))
 
@@ -1095,6 +1099,11 @@ def gen_wave2():
         inner[4] = '<span class=ib></span> ' + ws[4]
         inner[6] = '<span class=wide>%s</span> %s' % (" ".join(cw), ws[6])
         body.append('<div class=fl>%s</div><div class=fr>%s</div><div class=fr></div><p>%s</p>' % (a[0], b[0], " ".join(inner)))
+    for j, (wf, wbig) in enumerate([(90, 20), (80, 24), (95, 16), (70, 30)]):
+        fl = words("x%d" % j, 1); flows["fx%d" % j] = fl
+        ws = words("w", 4, wi); wi += 4; main += ws
+        body.append('<div style="clear: both; width: 100px"><div style="float:left;width:20px;height:10px"></div><div style="float:left;clear:left;width:60px;height:10px"></div>'
+                    '<p>%s <span style="float:left;width:%dpx">%s</span><span style="font-size:%dpx">%s</span> %s %s</p></div>' % (ws[0], wf, fl[0], wbig, ws[1], ws[2], ws[3]))
     flows["main"] = main
     scenario("oof-12", "oof", doc(css, "\n".join(body)), expect=dict(flows=flows, margin=True, page_w=260, page_h=200, conserve=True, line_height=12))
 
